@@ -194,3 +194,6 @@ Theorem C01_aux_as_duration_exact : forall secs nanos,
 Proof. exact as_duration_exact. Qed.
 Print Assumptions C01_aux_validate_tween_on_update.
 Print Assumptions C01_aux_as_duration_exact.
+
+(* Print Assumptions for every theorem above that did not have its own line yet *)
+Print Assumptions C01_generated_id_v0_refuted.
